@@ -219,8 +219,9 @@ def reset_servers() -> None:
 
 
 class FakePipeline:
-    def __init__(self, client: "FakeRedis") -> None:
+    def __init__(self, client: "FakeRedis", transaction: bool = True) -> None:
         self.client = client
+        self.transaction = transaction
         self.buf: list[tuple] = []
 
     async def __aenter__(self) -> "FakePipeline":
@@ -240,8 +241,15 @@ class FakePipeline:
 
     async def execute(self) -> list:
         buf, self.buf = self.buf, []
-        await self.client._trip("multi", [b[0] for b in buf])
-        return [self.client.server.cmd(op, *a, **kw) for op, a, kw in buf]   # atomic: no await in between
+        await self.client._trip("multi" if self.transaction else "pipeline", [b[0] for b in buf])
+        if self.transaction:
+            return [self.client.server.cmd(op, *a, **kw) for op, a, kw in buf]   # MULTI … EXEC: atomic, no await in between
+        # a plain pipeline only batches the commands: the server may serve other clients between two of them
+        out = []
+        for op, a, kw in buf:
+            out.append(self.client.server.cmd(op, *a, **kw))
+            await asyncio.sleep(0)
+        return out
 
 
 class FakeRedis:
@@ -268,7 +276,7 @@ class FakeRedis:
             raise ConnectionError("fake redis client is closed")
 
     def pipeline(self, transaction: bool = True) -> FakePipeline:
-        return FakePipeline(self)
+        return FakePipeline(self, transaction)
 
     async def aclose(self, close_connection_pool: bool = True) -> None:
         self.closed = True
